@@ -341,12 +341,15 @@ var fpProgs = map[string][]sched.Op{
 	"FUC": {{Op: "fu", F: "f1"}, {Op: "update", F: "f1"}, {Op: "commit", F: "-"}},
 	"F2C": {{Op: "fu2", F: "f1"}, {Op: "commit", F: "-"}},
 	"F2U": {{Op: "fu2", F: "f1"}, {Op: "update", F: "f2"}, {Op: "commit", F: "-"}},
+	// INSERT INTO f1 SELECT MAX(n) + 1 FROM f1: read-modify-write in one statement
+	"IC":  {{Op: "insself", F: "f1"}, {Op: "commit", F: "-"}},
+	"ICI": {{Op: "insself", F: "f1"}, {Op: "commit", F: "-"}, {Op: "insself", F: "f1"}, {Op: "commit", F: "-"}},
 }
 
 func obsOnly(in fpInit) bool {
 	for _, pg := range in.Progs {
 		for _, o := range pg {
-			if o.Op == "fu" || o.Op == "fu2" {
+			if o.Op == "fu" || o.Op == "fu2" || o.Op == "insself" {
 				return true
 			}
 		}
@@ -517,9 +520,9 @@ func runC09(r *core.Run) {
 
 	// ---- 2. schedules chosen on the real code: systematic preemption -------
 	pairs := [][2]string{{"UC", "UC"}, {"R", "UC"}, {"UC", "R"}, {"RUC", "UC"}, {"UR", "UC"}, {"UCUC", "RUC"}, {"UE", "R"}, {"UC", "UE"},
-		{"U12C", "U21C"}, {"CC", "CC"}, {"F2C", "UC2"}, {"FC", "UC"}, {"UC2", "F2U"}, {"FUC", "R"}, {"CC", "R2"}, {"CR", "CC"}, {"CC", "UC2"}}
+		{"U12C", "U21C"}, {"CC", "CC"}, {"F2C", "UC2"}, {"FC", "UC"}, {"UC2", "F2U"}, {"FUC", "R"}, {"IC", "UC"}, {"IC", "ICI"}, {"CC", "R2"}, {"CR", "CC"}, {"CC", "UC2"}}
 	if !r.Thorough {
-		pairs = pairs[:14]
+		pairs = pairs[:16]
 	}
 	batch := fpPreempt(r, pairs)
 	if !judge(batch) {
@@ -578,7 +581,7 @@ func runC09(r *core.Run) {
 	if r.Thorough {
 		nrand = 5000
 	}
-	names := []string{"R", "UC", "UR", "UE", "RUC", "UCUC", "U12C", "U21C", "R2", "UC2", "FC", "FUC", "F2C", "F2U"}
+	names := []string{"R", "UC", "UR", "UE", "RUC", "UCUC", "U12C", "U21C", "R2", "UC2", "FC", "FUC", "F2C", "F2U", "IC", "ICI"}
 	for i := 0; i < nrand; i++ {
 		np := 2 + r.Rand.Intn(2)
 		in := fpInit{Progs: map[string][]sched.Op{}, Exists: map[string]bool{"f1": true, "f2": true}}
